@@ -139,6 +139,10 @@ def relation(spec, model, op):
 _MOBS = {}
 
 
+def _norm(spec, obs, model):
+    return spec.normalize(obs, model) if hasattr(spec, "normalize") else obs
+
+
 def model_obs(spec, model):
     """facade observation of a model state, memoised per worker (pure function of the state)"""
     k = (id(spec), model.canon())
@@ -204,7 +208,7 @@ def check_step(spec, tag, model, impl, pre_obs, op, hist, weighted):
     others = []
     for i, alt in enumerate(alts):
         mobs = model_obs(spec, alt)
-        d = diff_obs(obs2, mobs)
+        d = diff_obs(_norm(spec, obs2, alt), mobs)
         if d is None:
             if i > 0:
                 flags.append("lenient-alternative")
@@ -237,11 +241,25 @@ def _work(profile, mode, items):
     """items: list of (model, hist).  Returns list of per-item results."""
     spec = profile.spec
     out = []
+    import contextlib, io, warnings
+    warnings.simplefilter("ignore")
+    with contextlib.redirect_stdout(io.StringIO()):
+        return _work2(profile, mode, items, spec, out)
+
+
+def _work2(profile, mode, items, spec, out):
     for model, hist in items:
         impl = build(spec, profile.weighted, hist)
         pre = spec.observe(impl)
-        d = diff_obs(pre, model_obs(spec, model))
+        d = diff_obs(_norm(spec, pre, model), model_obs(spec, model))
         if d is not None:
+            if not hist:
+                item, iv, mv = d
+                w = {"spec": spec.name, "args": spec.args(), "weighted": profile.weighted, "hist": [], "op": None}
+                out.append(([], [Violation("%s/initial/-/%s/%s" % (spec.name, qname(item), kind_of(iv, mv)),
+                                           "freshly constructed %s(weighted=%s): %s: implementation %r, reference %r"
+                                           % (spec.name, profile.weighted, item, iv, mv), w, size=0)], {"executions": 0}))
+                continue
             raise HarnessError("representative history %r does not reproduce its model state: %r" % (hist, d))
         succs, viols = [], []
         counts = {"executions": 0, "disabled": 0}
